@@ -6,23 +6,24 @@ import XjsModel.Props.C12
   The ECMAScript grammar for the operator core of the subset is a precedence-stratified, left-associative grammar:
   LogicalOR < LogicalAND < Equality < Relational < Additive < Multiplicative < Unary < Postfix(Update). A text derives
   a tree exactly when every left operand of lower level and every right operand of lower OR EQUAL level stands in
-  parentheses (more parentheses are always allowed). `RTE.SE.toks` is that rendering (trusted, two lines), with `grp`
+  parentheses (more parentheses are always allowed). `RS.SE.toks` is that rendering (trusted, two lines), with `grp`
   for redundant parentheses.
 
   Proved here:
-    * COMPLETENESS for expressions without function / object literals (operators, calls, member access,
-      assignments, array literals), for ALL trees (any depth / combination / redundant parentheses):
-      the rendering parses, in any mode, to exactly the tree it was rendered from (`RTE.main`);
+    * COMPLETENESS for ALL trees of the language (expressions incl. function and object literals, every statement
+      kind, whole programs; any depth / combination / redundant parentheses), with explicit semicolons:
+      the rendering parses, in any mode, to exactly the tree it was rendered from (`RS.main`);
     * the binding powers order the operator tokens exactly as the ECMAScript levels do, equal levels for the
       operators of one production (table obligation, re-extracted from /repo on every run);
     * for EVERY accepted text, of the whole subset: the token sequence of the returned tree is the input token
       sequence (`;` and `,` aside) — statement structure cannot swallow, duplicate or reorder tokens (from C12).
   Decided by the correspondence run and the model-free oracle (independent unparser in many layouts, goja/acorn as
-  reference parsers): statements, automatic semicolon insertion, the remaining expression forms.
+  reference parsers): automatic semicolon insertion, layout independence (whitespace, comments), SOUNDNESS (that no
+  other text is accepted with another grouping than ECMAScript's).
   Known findings there: restricted-production (D2), bare-cr (D10).
 -/
 namespace Xjs.C02
-open Xjs Xjs.RTE
+open Xjs Xjs.RS
 
 /-- the ECMAScript levels of the binary operator tokens, lowest first -/
 def ecmaLevels : List (List TokType) :=
@@ -53,6 +54,14 @@ theorem operator_core_parsed_as_rendered (cfg : PCfg) (hc : BaseCfg cfg) (s : SE
     | succ k ih => intro st; rw [nextK, ih, next_errors']
   exact key _ st
 
+/-- COMPLETENESS for whole programs: every program tree — all statement kinds, function and object literals — rendered
+    with `;` after expression, `let` and `return` statements and the parentheses the grammar requires, is accepted
+    without error and parsed to exactly that tree, in every mode -/
+theorem program_parsed_as_rendered (cfg : PCfg) (hc : BaseCfg cfg) (prog : SSList) (hw : prog.wf = true)
+    (eofTok : Token) (he : eofTok.type = .eof) :
+    ∃ r, parseProgram cfg (prog.toks ++ [eofTok]) = some r ∧ r.prog = prog.tree ∧ r.errors = [] ∧ r.hasErr = false :=
+  C03.printed_program_parses_back cfg hc prog hw eofTok he
+
 /-- redundant parentheses never change the tree other than by the explicit grouping node -/
 theorem redundant_parentheses_only_add_grouping (s : SE) :
     (SE.grp s).tree = .group lpT s.tree rpT ∧ (SE.grp s).toks = lpT :: s.toks ++ [rpT] := ⟨rfl, rfl⟩
@@ -78,5 +87,6 @@ end Xjs.C02
 
 #print axioms Xjs.C02.binding_powers_follow_ecmascript
 #print axioms Xjs.C02.operator_core_parsed_as_rendered
+#print axioms Xjs.C02.program_parsed_as_rendered
 #print axioms Xjs.C02.redundant_parentheses_only_add_grouping
 #print axioms Xjs.C02.accepted_text_is_the_tree
